@@ -221,31 +221,39 @@ def newest_mtime(paths):
     return m
 
 
-def ensure_driver():
-    """Extract the model (ExtrOcamlBasic only) and compile ocaml/*.ml against it. Returns (ok, log)."""
-    drv = os.path.join(BIN, "driver")
-    srcs = [os.path.join(COQ, "Model"), os.path.join(COQ, "Extract"), os.path.join(VERIF, "ocaml")]
+def ensure_driver_for(tag, extract_v, mls, exe_name, model_base="model"):
+    """Generic form: extract coq/Extract/<extract_v> (which must say `Extraction "<model_base>.ml" ...`,
+    ExtrOcamlBasic only) into build/extract/<tag>/ and compile ocaml/<mls...> against it into
+    build/bin/<exe_name>.  Returns (ok, log).  Rebuilt when any Model/, Extract/ or ocaml/ file is newer."""
+    drv = os.path.join(BIN, exe_name)
+    srcs = [os.path.join(COQ, "Model"), os.path.join(COQ, "Extract", extract_v)] + \
+           [os.path.join(VERIF, "ocaml", f) for f in mls]
     if os.path.exists(drv) and os.path.getmtime(drv) >= newest_mtime(srcs):
         return True, "driver up to date"
     ok, log = coq_make([s + "o" for s in coq_sources() if s.startswith("Model/")])
     if not ok:
         return False, log[-3000:]
-    ex = os.path.join(BUILD, "extract")
+    ex = os.path.join(BUILD, "extract", tag)
     os.makedirs(ex, exist_ok=True)
-    rc, out, err = sh(["coqc", "-Q", COQ, "BM", os.path.join(COQ, "Extract", "Extract.v")], cwd=ex, timeout=600)
+    rc, out, err = sh(["coqc", "-Q", COQ, "BM", os.path.join(COQ, "Extract", extract_v)], cwd=ex, timeout=600)
     if rc != 0:
         return False, (out + err)[-3000:]
-    order = ["zu.ml", "views.ml", "iters.ml", "assign.ml", "compare.ml", "life.ml", "driver.ml"]
-    mls = []
-    for f in order:
-        p = os.path.join(VERIF, "ocaml", f)
-        if os.path.exists(p):
-            shutil.copy(p, os.path.join(ex, f))
-            mls.append(f)
-    rc, out, err = sh(["ocamlfind", "ocamlopt", "-w", "-a", "model.mli", "model.ml"] + mls + ["-o", drv], cwd=ex, timeout=600)
+    names = []
+    for f in mls:
+        shutil.copy(os.path.join(VERIF, "ocaml", f), os.path.join(ex, f))
+        names.append(f)
+    rc, out, err = sh(["ocamlfind", "ocamlopt", "-w", "-a", "-inline", "50",
+                       model_base + ".mli", model_base + ".ml"] + names + ["-o", drv], cwd=ex, timeout=600)
     if rc != 0:
         return False, (out + err)[-3000:]
     return True, "driver rebuilt"
+
+
+def ensure_driver():
+    """The view-family driver (views, iterators, assignment, comparison, lifecycle)."""
+    order = ["zu.ml", "views.ml", "iters.ml", "assign.ml", "compare.ml", "life.ml", "driver.ml"]
+    mls = [f for f in order if os.path.exists(os.path.join(VERIF, "ocaml", f))]
+    return ensure_driver_for("main", "Extract.v", mls, "driver")
 
 
 # --------------------------------------------------------------------------------------------
